@@ -30,6 +30,22 @@ CLAIMED = {
          "Lean theorems over a transcription of container/heap (up/down/Push/Pop, proved: heap invariant preserved and Pop minimal under a strict weak order; permutation for arbitrary comparisons) and of the WeightedSampling loop with the keys as inputs: for every key list and ANY comparison outcomes the result has sampleNum pairwise distinct indices < totalNum (a permutation when equal), and under a strict total order exactly the indices of the sampleNum largest keys; invalid arguments panic; old pre-filled heap counterexample. Tied to /repo per run: the harness replays math/rand's stream, sends exact key ranks (big-integer comparison, independent of the float formula) to the model and compares the index slice exactly, all permutations n<=7, weak orders with ties, weights from 5e-324 to 1e300. The probability law w_i/sum(w) is NOT proved (partial): 6-sigma statistical check on every run",
          "trusted: math/rand, float key computation outside the model (checked against exact ranks), Lean kernel, axioms in evidence, driver compilation, harness",
          "machine-checked proof (Lean 4) + differential correspondence on exact key ranks + statistical search", "DESIGN.md §2 C20"),
+ "C01": ("lean-proof+controlled-scheduler",
+         "Lean theorem C01_linearizable: for every list of actions (any number of goroutines, any client programs, any interleaving of the individual atomic loads/CASes of Push and Pop) the history of the Michael-Scott queue model is linearizable w.r.t. the sequential FIFO in the textbook Herlihy-Wing sense (completion, legal sequential history, per-thread order, real-time order), via a structural invariant (C01_inv, no nil dereference), linearisation-point witness (C01_lp_witness) and a generic LP-soundness meta-theorem (C01_lp_sound); corollaries: no invention, duplication, loss, FIFO order, nil only if empty at an instant inside the Pop. Tie to /repo: the real loom.Queue is driven one atomic access at a time by a cooperative scheduler through verif-tagged yield hooks; every step (thread, site, pointer class, CAS outcome) and every return value is compared with the model under schedules that cover every transition of the model's reachable state graph for small configurations plus random/PCT schedules; an independent brute-force linearizability checker judges the real histories",
+         "trusted: sequentially consistent sync/atomic, garbage collection (no ABA), hook placement and scheduler, Lean kernel, axioms in evidence, driver compilation; clients never push nil",
+         "machine-checked linearizability proof (Lean 4) + step-level correspondence under a controlled scheduler", "DESIGN.md §2 C01"),
+ "C02": ("lean-proof+controlled-scheduler",
+         "Lean theorem C02_solo_bound: from every reachable state (other goroutines frozen at arbitrary points inside Push/Pop) a running operation returns within K=13 of its own steps, by a measure bounded by K that strictly decreases on every solo step (uses the invariant that the tail lags by at most one node). Tie to /repo: for reachable states (schedule prefixes covering the model's state graph) the real code is brought to that state and one thread is run solo; its step count must equal the model's measure and be <= 13; a thread still running after 10*K steps is a violation with the prefix as replay",
+         "trusted: as C01",
+         "machine-checked proof (Lean 4) + solo-run correspondence under a controlled scheduler", "DESIGN.md §2 C02"),
+ "C16": ("lean-proof+virtual-time",
+         "Lean theorems over an LTS of WaitClose (one pc per atomic/mutex/channel access of C, WaitUtil, IsClosed, Close incl. the deferred store/unlock/recover order; callbacks and panics as environment choices; any number of goroutines): at most one callback, started by the closing call; no Close returns before it ended; a panicking callback still closes; C() never nil; at most one channel is created, never closed twice, closed once any Close returned; IsClosed stable; WaitUtil true/false vs the close instant and deadline. Tie to /repo: scripted scenarios on the real code under the Go runtime's virtual clock (faketime); the compiled model, in monitor mode, must reproduce every observed return instant and value",
+         "trusted: Go mutex/channel/select/timer semantics as modelled; at an exact tie (timeout <= 0 or close at the deadline instant) either WaitUtil answer is accepted; Lean kernel, axioms in evidence, driver compilation, faketime runtime",
+         "machine-checked proof (Lean 4) + trace inclusion of virtual-time runs", "DESIGN.md §2 C16"),
+ "C17": ("lean-proof+controlled-scheduler",
+         "Lean theorems: TryLock against a transcription of sync.Mutex's word protocol (over-approximated environment): at most one holder in every reachable state, a TryLock CAS succeeds only on a word with none of locked/woken/starving and makes the caller the holder, Unlock releases it; AddFlag/RemoveFlag take effect exactly once at their successful CAS (value = fold in CAS order; adds = OR of all flags); AddIf64's CAS sees a value satisfying the predicate, so predicate-closed invariants (never above the limit) hold in every reachable state; Count = waiters + holder for every 32-bit word. Tie to /repo: step-level correspondence under the cooperative scheduler (all interleavings of small programs, all 64 flag bits, all (init,delta,limit) in [-3,3]^3, TryLock vs the real sync.Mutex incl. constructed woken/starving words), Count on real mutexes with 0..6 parked waiters",
+         "trusted: the transcription of go1.23 sync.Mutex (hash of the toolchain's mutex.go recorded in the evidence), sequentially consistent atomics, hooks/scheduler, Lean kernel, axioms in evidence, driver compilation",
+         "machine-checked proof (Lean 4) + step-level correspondence under a controlled scheduler", "DESIGN.md §2 C17"),
 }
 NOT_CLAIMED = {}
 
